@@ -145,6 +145,8 @@ where
 	let mut limited_body = Limited::new(body, max_body_size as usize);
 
 	let mut is_single = None;
+	// Number of leading whitespace bytes skipped in earlier chunks.
+	let mut skipped_whitespace = 0;
 
 	while let Some(frame_or_err) = limited_body.frame().await {
 		let frame = frame_or_err.map_err(HttpError::Stream)?;
@@ -152,10 +154,14 @@ where
 			continue;
 		};
 
-		// If it's the first chunk, trim the whitespaces to determine whether it's valid JSON-RPC call.
-		if received_data.is_empty() {
-			let first_non_whitespace =
-				data.chunk().iter().enumerate().take(128).find(|(_, byte)| !byte.is_ascii_whitespace());
+		// Until the first non-whitespace byte, trim the whitespaces to determine whether it's valid JSON-RPC call.
+		if is_single.is_none() {
+			let first_non_whitespace = data
+				.chunk()
+				.iter()
+				.enumerate()
+				.take(128 - skipped_whitespace)
+				.find(|(_, byte)| !byte.is_ascii_whitespace());
 
 			let skip = match first_non_whitespace {
 				Some((idx, b'{')) => {
@@ -165,6 +171,11 @@ where
 				Some((idx, b'[')) => {
 					is_single = Some(false);
 					idx
+				}
+				// Only whitespace so far, the JSON may start in a later chunk.
+				None if skipped_whitespace + data.chunk().len() < 128 => {
+					skipped_whitespace += data.chunk().len();
+					continue;
 				}
 				_ => return Err(HttpError::Malformed),
 			};
